@@ -3,15 +3,15 @@ CONSTANTS
   Inf <- InfC
   Ov <- OvL
   DKey <- DKeyL
-  L = 6
-  Dim = 1
-  Periodic = FALSE
-  OpenAxes = {}
+  L = 4
+  Dim = 2
+  Periodic = TRUE
+  OpenAxes = {2}
   Radii = {1}
   MaxPer = 2
   NFrames = 2
   MethodC = "distance"
-  MaxD2 = 4
+  MaxD2 = 2
 INVARIANT Partition
 INVARIANT NoForeign
 INVARIANT GapFree
